@@ -68,6 +68,22 @@ FIRST = {
     "C13-7": "exit 2 at first (no handle attribute found); a container of handles is accepted when it belongs to the instance and reported when it is created in the class body (C13.R1)",
     "C15-7": "exit 2 at first (module-level name unknown to the column interpreter); purity rule C15.R12 added",
     "C15-8": "**missed at first**; C15.R11 added (every left shift of the packers applies to a value widened to 16 bits or more)",
+    # fifth round (-9 / -10)
+    "C02-9": "C13.R3 / C07.R8 at once; **C02 missed**; the purity rule is re-checked under C02.R9 (the bound holds for every dequantization, not the first)",
+    "C03-9": "C12.R2 at once; **C03 missed**; C03.R8 added (no fixed-dtype conversion between the measured tensor and the scale buffer)",
+    "C04-9": "exit 2 at first under C04 (C13.R3 at once); purity rule C04.R7 added (packer and python fallback use no module-level state and never write into their argument)",
+    "C06-9": "**missed at first** by every property (C05 undecided): a payload built from several operands may be broadcast, so the wrapper's geometry must be the payload's own - decided under C06.R1 even where C05 cannot classify the op",
+    "C07-10": "**missed at first** by every property; the accumulation table (C07.R3 / C05.R15) now also covers the casts in front of the mm / bmm handlers' contractions",
+    "C08-10": "C07.R3 / C05.R15 at once; **C08 missed**; C08.R8 widened to C07.R3 / R5 / R10 (the four recorded kernel findings are listed under C08 as well)",
+    "C09-9": "C03.R1 / C14.R5 at once; **C09 missed**; the reduction-dims rule is re-checked under C09.R7 (one scale per output index or group)",
+    "C10-9": "C09.R1 / C13.R4 at once; **C10 missed**; clause added to C10.R2 (`frozen` is computed from the type of the weight the module holds, not a stored flag)",
+    "C11-9": "C08.R4 / C10.R11 at once; **C11 missed**; the copy rule is re-checked under C11.R9",
+    "C11-10": "**missed at first** by every property; C11.R6 extended to gradient-mode decorators and to the value the calibration hooks hand back to the model",
+    "C13-10": "**missed at first** by every property; platform-table clause added to C13.R1 (a global forward hook registered `with_kwargs=True` leaves an entry in a table its handle does not clean)",
+    "C14-9": "C06.R9 at once; **C14 missed**; the 0-dim clause is re-checked under C14.R5",
+    "C15-9": "**missed at first** (C06 / C10 undecided: one flatten class fewer); inherited-reader rule (a subclass with its own constructor must not inherit a reader that names its base) under C06.R5 / C10.R1 and the new C15.R13 - under which the Enum codec of `AWQPackedTensor` became **finding F38**",
+    "C16-9": "C07.R2 / C05.R14 / C08.R8 at once; **C16 missed**; C16.R9 added (single-rounding clause and weight-source rule re-checked: inference after calibration)",
+    "C16-10": "C02.R9 / C07.R8 / C08.R7 / C09 / C10.R10 at once; **C16 missed**; C16.R9",
 }
 
 
